@@ -1,4 +1,4 @@
-import Ark.Generated.Facts
+import Ark.Generated.FactsMapRanges
 import Ark.Proofs.AL
 import Ark.Model.Archetype
 
